@@ -340,3 +340,91 @@ pub fn weak_key_pairs() -> Vec<(BigInt, BigInt)> {
     }
     out
 }
+
+/// Coefficients written as 64-bit words drawn from `vals`, EVERY combination for 1..=nwords words (top word
+/// non-zero): zero words in the middle, words below a power of ten, all-ones words at every position.  Word-at-a-time
+/// code (stack buffers of a fixed number of words, `zip` over words, per-word carries) is decided by exactly this.
+pub fn sparse_words(nwords: usize, vals: &[u64]) -> Vec<BigInt> {
+    let mut out = vec![];
+    for n in 1..=nwords {
+        let total = vals.len().pow(n as u32);
+        for mut code in 0..total {
+            let mut v = BigInt::from(0);
+            let mut top = 0u64;
+            for i in 0..n {
+                let w = vals[code % vals.len()];
+                code /= vals.len();
+                v += BigInt::from(w) << (64 * i);
+                if i == n - 1 {
+                    top = w;
+                }
+            }
+            if top != 0 {
+                out.push(v);
+            }
+        }
+    }
+    out.sort();
+    out.dedup();
+    out
+}
+
+/// Word values on which "multiply the word by 10^g and add a carry" leaves the machine word: floor(2^B / 10^g) + d
+/// for B in {32, 64, 128}, d in {-1, 0, 1}, placed at 32-bit word position `pos` of an otherwise zero coefficient.
+pub fn critical_word_ints(g: u32, positions: &[usize]) -> Vec<BigInt> {
+    let mut out = vec![];
+    let p = BigInt::from(10).pow(g);
+    for b in [32usize, 64, 128] {
+        let q = (BigInt::from(1) << b) / &p;
+        for d in [-1i64, 0, 1] {
+            let w = &q + d;
+            if w.sign() != num_bigint::Sign::Plus {
+                continue;
+            }
+            for &pos in positions {
+                out.push(w.clone() << (32 * pos));
+            }
+        }
+    }
+    out.sort();
+    out.dedup();
+    out
+}
+
+/// Radicands whose leading machine word is an exact k-th power m^k (k = 2, 3) followed by k*j low bits that are all
+/// ones / a single top bit: X = (m^k << k*j) + low.  An integer-root routine seeded from the leading word starts at
+/// m << j, below the true root; the decimal-built families (powers, powers +- a far digit) never have this shape.
+pub fn binary_power_heads(k: u32, js: &[usize]) -> Vec<BigInt> {
+    let ms: Vec<u64> = if k == 3 { vec![1 << 20, (1 << 20) + 1, 1_290_000, 1_664_511, (1 << 21) - 1] } else { vec![1 << 31, (1 << 31) + 1, 3_037_000_499, u32::MAX as u64] };
+    let mut out = vec![];
+    for &m in ms.iter() {
+        let mk = BigInt::from(m).pow(k);
+        for &j in js {
+            let sh = k as usize * j;
+            let head = mk.clone() << sh;
+            out.push(&head + ((BigInt::from(1) << sh) - 1));
+            out.push(&head + (BigInt::from(1) << (sh - 1)));
+        }
+    }
+    out
+}
+
+/// Primitive-width integers next to a power of ten: 10^k + d for every k with 10^k < 2^bits and small / word-sized
+/// offsets d.  A float-based "is this a power of ten" test (log10, f64 conversion) takes them for 10^k.
+pub fn near_powers_of_ten(bits: u32) -> Vec<BigInt> {
+    let lim = BigInt::from(1) << bits;
+    let mut out = vec![];
+    let mut p = BigInt::from(1);
+    while p < lim {
+        for d in [-32768i64, -2048, -256, -17, -16, -3, -2, -1, 0, 1, 2, 3, 16, 17, 32, 256, 2048, 32768] {
+            let v = &p + d;
+            if v.sign() == num_bigint::Sign::Plus && v < lim {
+                out.push(v);
+            }
+        }
+        p *= 10;
+    }
+    out.sort();
+    out.dedup();
+    out
+}
